@@ -224,19 +224,28 @@ def shard_toy(ctx: Ctx) -> None:
                     offs += 1
                     if offs > 40:
                         break
-                    o = outcome(mult, 3, (x, y), ec)
+                    # every scalar class meets the bad point: a special case for a zero scalar (or for the order, a multiple
+                    # of it, a negative one) must not answer before the point has been looked at
+                    for m in (3, 0, 1, n, n - 1, 2 * n, -n, -1, n + 1):
+                        o = outcome(mult, m, (x, y), ec)
+                        if o[0] == "ok" or not isinstance(o[1], BTClibValueError):
+                            ctx.violation("offcurve-answered" + (":zero-scalar" if m % n == 0 else ""),
+                                          f"mult({m}, {(x, y)}) -> {o[1]!r} for a point off the curve", {**desc, "P": (x, y), "m": m})
+                    for u, v in ((1, 2), (0, 2), (1, 0), (0, 0), (n, n), (2, n)):
+                        for H_, Q_ in ((G, (x, y)), ((x, y), G)):
+                            o = outcome(double_mult_var, u, H_, v, Q_, ec)
+                            if o[0] == "ok" or not isinstance(o[1], BTClibValueError):
+                                ctx.violation("offcurve-answered" + (":zero-scalar" if (u % n == 0 or v % n == 0) else ""),
+                                              f"double_mult_var({u},{H_},{v},{Q_}) with an off-curve point -> {o[1]!r}", {**desc, "P": (x, y), "u": u, "v": v})
+                    for scal in ([1, 2, 3], [1, 0, 3], [0, 0, 0], [n, n, 1]):
+                        o = outcome(multi_mult_var, scal, [G, (x, y), G], ec)
+                        if o[0] == "ok" or not isinstance(o[1], BTClibValueError):
+                            ctx.violation("offcurve-answered" + (":zero-scalar" if scal[1] % n == 0 else ""),
+                                          f"multi_mult_var({scal}) with off-curve {(x, y)} -> {o[1]!r}", {**desc, "P": (x, y), "scalars": scal})
+                    o = outcome(PreparedPoint, (x, y), ec)
                     if o[0] == "ok" or not isinstance(o[1], BTClibValueError):
-                        ctx.violation("offcurve-answered", f"mult(3, {(x, y)}) -> {o[1]!r} for a point off the curve",
-                                      {**desc, "P": (x, y)})
-                    o = outcome(double_mult_var, 1, G, 2, (x, y), ec)
-                    if o[0] == "ok" or not isinstance(o[1], BTClibValueError):
-                        ctx.violation("offcurve-answered", f"double_mult_var with off-curve {(x, y)} -> {o[1]!r}",
-                                      {**desc, "P": (x, y)})
-                    o = outcome(multi_mult_var, [1, 2, 3], [G, (x, y), G], ec)
-                    if o[0] == "ok" or not isinstance(o[1], BTClibValueError):
-                        ctx.violation("offcurve-answered", f"multi_mult_var with off-curve {(x, y)} -> {o[1]!r}",
-                                      {**desc, "P": (x, y)})
-                    ctx.bulk("toy:offcurve", 3)
+                        ctx.violation("offcurve-answered", f"PreparedPoint({(x, y)}) accepted a point off the curve", {**desc, "P": (x, y)})
+                    ctx.bulk("toy:offcurve", 9 + 12 + 4 + 1)
             if offs > 40:
                 break
 
@@ -568,8 +577,12 @@ def shard_big(ctx: Ctx) -> None:
                 x = rng.randrange(ec.p)
                 y = rng.randrange(1, ec.p)
                 if not rc.on_curve((x, y)):
+                    zs = rng.choice([0, n, 2 * n, -n])
                     for call in (lambda: mult(3, (x, y), ec), lambda: double_mult_var(1, tuple(ec.G), 1, (x, y), ec),
-                                 lambda: multi_mult_var([1, 1], [tuple(ec.G), (x, y)], ec)):
+                                 lambda: multi_mult_var([1, 1], [tuple(ec.G), (x, y)], ec),
+                                 lambda: mult(zs, (x, y), ec), lambda: double_mult_var(1, tuple(ec.G), zs, (x, y), ec),
+                                 lambda: multi_mult_var([1, zs], [tuple(ec.G), (x, y)], ec), lambda: PreparedPoint((x, y), ec),
+                                 lambda: mult(5, (x + ec.p, y), ec), lambda: mult(zs, (x, y + ec.p), ec)):
                         o = outcome(call)
                         if o[0] == "ok" or not is_lib_exc(o[1]):
                             ctx.violation("offcurve-answered", f"{name}: off-curve point answered/raised {o[1]!r}",
